@@ -65,3 +65,72 @@ def has_kind(t: gen.T, fam: gen.Family, kinds) -> bool:
                         return True
         return False
     return go(t)
+
+
+def as_dict_stream(rng, n: int):
+    """NamedTuple classes (trailing defaults, nested NamedTuples, fixed tuples, Optional; at the root or inside List / Optional) under a
+    dialect with namedtuple_as_dict = True, or as the field of a holder dataclass whose Config sets the option (then dialect = None).
+    Yields (fam, ns, t, ty, dialect); the reference reads them with ref.NT_AS_DICT = True."""
+    from mashumaro.dialect import Dialect
+
+    class AsDict(Dialect):
+        namedtuple_as_dict = True
+    for i in range(n):
+        sg = gen.SchemaGen(rng, gen.GenOpts(depth=2, named=True))
+        sg.tag = f"ad{i}_"
+
+        def item(d):
+            c = rng.random()
+            if c < 0.35 or d <= 0:
+                return gen.T(rng.choice(["int", "str", "bool", "float"]))
+            if c < 0.55:
+                return gen.T("tuplefix", [gen.T(rng.choice(["int", "str", "bool"])) for _ in range(rng.randrange(1, 4))])
+            if c < 0.8:
+                return nt(d - 1)
+            if c < 0.9:
+                return gen.T("list", [item(d - 1)])
+            return gen.T("opt", [item(d - 1)])
+
+        def nt(d):
+            spec = gen.ClassSpec("nt", sg.fresh("N"))
+            for k2 in range(rng.randrange(1, 5)):
+                spec.fields.append(gen.FieldSpec(f"a{k2}", item(d)))
+            for f in reversed(spec.fields):
+                dv = sg.simple_default(f.ty) if rng.random() < 0.8 else None
+                if dv is None or (isinstance(dv[0], str) and dv[0].startswith("factory:")):
+                    break
+                f.default, f.default_src = dv
+            sg.fam.classes.append(spec)
+            return gen.T("nt", name=spec.name)
+        c = rng.random()
+        t = nt(2) if c < 0.7 else gen.T("list", [nt(1)]) if c < 0.85 else gen.T("opt", [nt(1)])
+        fam = sg.fam
+        dia = AsDict
+        if rng.random() < 0.35:
+            # the same option as a Config option of a holder dataclass (no dialect involved)
+            holder = gen.ClassSpec("data", sg.fresh("H"), fields=[gen.FieldSpec("x", t)], mixin=True, config={"namedtuple_as_dict": True})
+            fam.classes.append(holder)
+            t, dia = gen.T("data", name=holder.name), None
+        ns = fam.build()
+        yield fam, ns, t, gen.resolve(t, ns), dia
+        fam.dispose()
+
+
+def key_removals(w, limit=16):
+    """every variant of a wire value in which ONE key of ONE nested dict is removed, plus the variant with a surplus key"""
+    out = []
+
+    def go(x, rebuild):
+        if len(out) >= limit:
+            return
+        if isinstance(x, list):
+            for i, y in enumerate(x):
+                go(y, lambda z, i=i, x=x: rebuild(x[:i] + [z] + x[i + 1:]))
+        elif isinstance(x, dict):
+            for k2 in x:
+                out.append(rebuild({k3: y for k3, y in x.items() if k3 != k2}))
+            out.append(rebuild({**x, "zz_surplus": 1}))
+            for k2, y in x.items():
+                go(y, lambda z, k2=k2, x=x: rebuild({**x, k2: z}))
+    go(w, lambda z: z)
+    return out[:limit]
